@@ -469,6 +469,10 @@ COMPLETE_BUILTINS = {"list", "set", "tuple", "frozenset", "sorted", "reversed"}
 FULL_CONSUMERS = {"list", "set", "tuple", "frozenset", "sorted", "dict", "sum", "max", "min", "len", "Counter", "deque"}
 
 
+CALLABLE_KINDS = {"attrgetter", "itemgetter", "methodcaller", "partial"}
+OPERATOR_FUNCS = {"getitem", "not_", "truth", "is_", "is_not", "eq", "ne", "lt", "le", "gt", "ge", "contains", "attrgetter", "itemgetter", "methodcaller"}
+
+
 class _Closure:
     def __init__(self, vars: dict) -> None:
         self.vars = vars
@@ -1381,6 +1385,8 @@ class Sym:
             if r is not None:
                 return r
             fval = self.get_attr(base, f.attr, st, f.value, ctx) if not isinstance(base, (Coll, Const, BoolV)) else None
+        if isinstance(fval, Opq) and fval.kind in CALLABLE_KINDS and not star:
+            return self.call_value(fval, args, kwargs, st, ctx, e)
         if star:
             if isinstance(fval, FnV) and not (self.stop is not None and self.stop([fval.fi])):
                 # f(*args, **kwargs) with unknown extra arguments: the remaining parameters are unconstrained
@@ -1674,6 +1680,8 @@ class Sym:
             res = Opq(f"{name}({', '.join(key(a) for a in args)})", deps, kind=name, meta=tuple(args))
             self.emit("call", name, args, None, st, ctx, e, ("b", "builtin", ()), res)
             return res
+        if name == "map" and len(args) >= 2 and not kwargs:
+            return self.map_call(args[0], list(args[1:]), st, ctx, e)
         if name in ("max", "min", "abs", "sum", "zip", "enumerate", "range", "map", "filter", "iter", "next", "open", "print", "type", "id", "hash", "round", "divmod", "ord", "chr", "callable", "issubclass", "vars", "dir", "format"):
             res = Opq(f"{name}({', '.join(key(a) for a in args)})#{self.fresh() if name in ('open', 'next', 'iter') else ''}".rstrip("#"), deps, kind="call")
             self.emit("call", name, args, None, st, ctx, e, ("b", "builtin", ()), res)
@@ -1695,6 +1703,9 @@ class Sym:
                 return ref
         if fq == "dataclasses.astuple" and len(args) == 1 and isinstance(args[0], Ref) and args[0].cls in self.repo.classes:
             return self.new_coll(st, "tuple", [(self.get_attr(args[0], fname, st, e.args[0], ctx), TRUE) for fname in self.record_fields(self.repo.classes[args[0].cls])])
+        r = self.functional_lib(fq, args, kwargs, st, ctx, e, alldeps)
+        if r is not None:
+            return r
         if fq in RE_SEARCH and len(args) >= 2:
             res = Opq(f"{fq}({key(args[0])}, {key(args[1])})", alldeps, kind="search", meta=(self.deps(args[0], st), self.deps(args[1], st)))
             self.emit("call", fq, args, None, st, ctx, e, ("lib", fq), res)
@@ -1709,6 +1720,177 @@ class Sym:
         res = Opq(f"{fq}({', '.join([key(a) for a in args] + [f'{k}={key(v)}' for k, v in kwargs.items()])})", alldeps, kind="call")
         self.emit("call", fq, args, None, st, ctx, e, ("lib", fq), res)
         return res
+
+    # operator / functools / itertools --------------------------------------------------------
+    def functional_lib(self, fq: str, args, kwargs, st: State, ctx, e, alldeps) -> Val | None:
+        """operator.attrgetter / itemgetter / methodcaller, functools.partial (callable values), operator.getitem & co called
+        directly, itertools.repeat / chain / chain.from_iterable / starmap."""
+        ks = ", ".join([key(a) for a in args] + [f"{k}={key(v)}" for k, v in kwargs.items()])
+        if fq == "operator.attrgetter" and args and all(isinstance(a, Const) and isinstance(a.value, str) for a in args):
+            return Opq(f"attrgetter({ks})", kind="attrgetter", meta=tuple(a.value for a in args))
+        if fq == "operator.itemgetter" and args:
+            return Opq(f"itemgetter({ks})", alldeps, kind="itemgetter", meta=tuple(args))
+        if fq == "operator.methodcaller" and args and isinstance(args[0], Const) and isinstance(args[0].value, str):
+            return Opq(f"methodcaller({ks})", alldeps, kind="methodcaller", meta=(args[0].value, tuple(args[1:]), tuple(kwargs.items())))
+        if fq == "functools.partial" and args:
+            return Opq(f"partial({ks})", alldeps, kind="partial", meta=(args[0], tuple(args[1:]), tuple(kwargs.items())))
+        if fq.startswith("operator.") and fq.split(".")[-1] in OPERATOR_FUNCS and not kwargs:
+            return self.call_value(Opq(fq, kind="libref"), list(args), {}, st, ctx, e)
+        if fq == "itertools.repeat" and len(args) == 1 and not kwargs:
+            return Opq(f"repeat({ks})", alldeps, kind="repeat", meta=(args[0],))
+        if fq == "itertools.repeat" and len(args) == 2 and isinstance(args[1], Const) and isinstance(args[1].value, int) and 0 <= args[1].value <= MAX_UNROLL:
+            return self.new_coll(st, "list", [(args[0], TRUE)] * args[1].value)
+        if fq in ("itertools.chain", "itertools.chain.from_iterable"):
+            parts = list(args)
+            if fq.endswith("from_iterable"):
+                if len(args) != 1:
+                    return None
+                outer = self.exact_items(args[0], st)
+                if outer is None:
+                    # every element of every element of the argument
+                    inner = self.elem_of(args[0], st)
+                    return self.new_coll(st, "list", [], False, deps=self.deps(args[0], st) | self.deps(inner, st))
+                parts, conds = [x for x, _c in outer], [c for _x, c in outer]
+            else:
+                conds = [TRUE] * len(parts)
+            items: list[tuple[Val, Formula]] = []
+            for part, c in zip(parts, conds):
+                ii = self.exact_items(part, st)
+                if ii is None:
+                    return self.new_coll(st, "list", [], False, deps=alldeps | frozenset().union(*[self.deps(x, st) for x in parts]))
+                items += [(x, f_and([c, c2])) for x, c2 in ii]
+            return self.new_coll(st, "list", items)
+        if fq == "itertools.starmap" and len(args) == 2 and not kwargs:
+            return self.map_call(args[0], [args[1]], st, ctx, e, star=True)
+        return None
+
+    def call_value(self, fv: Val, args: list[Val], kwargs: dict[str, Val], st: State, ctx, e) -> Val:
+        """Call of a callable *value* (function / class / bound method, operator.* function, attrgetter / itemgetter /
+        methodcaller / partial object) with already evaluated arguments."""
+        alldeps = frozenset().union(*[self.deps(a, st) for a in [*args, *kwargs.values()]]) if (args or kwargs) else frozenset()
+        if isinstance(fv, Phi):
+            return mk_phi([(c, self.call_value(a, args, kwargs, st, ctx, e)) for c, a in fv.alts])
+        if isinstance(fv, (FnV, ClsV)):
+            return self.apply(fv, list(args), dict(kwargs), st, ctx, e, alldeps)
+        operand = ast.Name(id="<operand>", ctx=ast.Load())  # untyped: the static type comes from where the value was read
+        sub = ast.Subscript(value=operand, slice=ast.Constant(value=None), ctx=ast.Load())
+        ast.copy_location(sub, e)
+        if isinstance(fv, Opq) and fv.kind == "libref" and fv.key.startswith("operator.") and not kwargs:
+            op = fv.key.split(".")[-1]
+            if op == "getitem" and len(args) == 2:
+                return self.subscript(args[0], args[1], st, ctx, sub)
+            if op in ("not_", "truth") and len(args) == 1:
+                t = self.truth(args[0], st)
+                return BoolV(f_not(t) if op == "not_" else t, alldeps)
+            cmp_ = {"is_": ast.Is, "is_not": ast.IsNot, "eq": ast.Eq, "ne": ast.NotEq, "lt": ast.Lt, "le": ast.LtE, "gt": ast.Gt, "ge": ast.GtE}
+            if op in cmp_ and len(args) == 2:
+                return BoolV(self.compare(args[0], cmp_[op](), args[1], st), alldeps)
+            if op == "contains" and len(args) == 2:
+                return BoolV(self.compare(args[1], ast.In(), args[0], st), alldeps)
+            if op in ("attrgetter", "itemgetter", "methodcaller"):
+                r = self.functional_lib(fv.key, args, kwargs, st, ctx, e, alldeps)
+                if r is not None:
+                    return r
+        if isinstance(fv, Opq) and fv.kind == "attrgetter" and len(args) == 1 and not kwargs:
+            def chain_(obj: Val, dotted_name: str) -> Val:
+                for a in dotted_name.split("."):
+                    obj = self.get_attr(obj, a, st, operand, ctx)
+                return obj
+            vals = [chain_(args[0], n) for n in fv.meta]
+            return vals[0] if len(vals) == 1 else self.new_coll(st, "tuple", [(v, TRUE) for v in vals])
+        if isinstance(fv, Opq) and fv.kind == "itemgetter" and len(args) == 1 and not kwargs:
+            vals = [self.subscript(args[0], k, st, ctx, sub) for k in fv.meta]
+            return vals[0] if len(vals) == 1 else self.new_coll(st, "tuple", [(v, TRUE) for v in vals])
+        if isinstance(fv, Opq) and fv.kind == "methodcaller" and len(args) == 1 and not kwargs:
+            name, margs, mkw = fv.meta
+            if name == "__getitem__" and len(margs) == 1 and not mkw:
+                return self.subscript(args[0], margs[0], st, ctx, sub)
+            target = self.get_attr(args[0], name, st, operand, ctx) if not isinstance(args[0], (Coll, Const, BoolV)) else None
+            if isinstance(target, (FnV, ClsV, Phi)):
+                return self.call_value(target, list(margs), dict(mkw), st, ctx, e)
+            r = self.method_call(args[0], name, list(margs), dict(mkw), st, ctx, ast.Call(func=ast.Attribute(value=operand, attr=name, ctx=ast.Load()), args=[], keywords=[]), alldeps) if isinstance(args[0], Coll) else None
+            if r is not None:
+                return r
+            res = Opq(f"{key(args[0])}.{name}({', '.join(key(a) for a in margs)})", alldeps | self.deps(args[0], st), kind="call")
+            self.emit("call", name, list(margs), args[0], st, ctx, e, ("unknown",), res)
+            return res
+        if isinstance(fv, Opq) and fv.kind == "partial":
+            f0, pargs, pkw = fv.meta
+            return self.call_value(f0, [*pargs, *args], {**dict(pkw), **kwargs}, st, ctx, e)
+        if isinstance(fv, Opq) and fv.kind == "builtin" and not kwargs:
+            r = self.builtin(fv.key, list(args), {}, st, ctx, ast.Call(func=ast.Name(id=fv.key, ctx=ast.Load()), args=[operand] * len(args), keywords=[]))
+            if r is not None:
+                return r
+        res = Opq(f"{key(fv)}({', '.join([key(a) for a in args] + [f'{k}={key(v)}' for k, v in kwargs.items()])})", alldeps | self.deps(fv, st), kind="call")
+        self.emit("call", key(fv).split(".")[-1][:40], list(args), None, st, ctx, e, ("unknown",), res)
+        return res
+
+    def map_call(self, f: Val, iterables: list[Val], st: State, ctx, e, star: bool = False) -> Val:
+        """map(f, it1, it2, ...) / starmap(f, it): evaluated eagerly, like a generator expression handed to a consumer.
+        itertools.repeat(x) supplies x for every element of the other iterables."""
+        nodes = list(getattr(e, "args", []))[1:]
+        its = []
+        for i, it in enumerate(iterables):
+            if isinstance(it, Opq) and it.kind == "repeat":
+                its.append(it)
+            else:
+                its.append(self.iterate(it, nodes[i] if i < len(nodes) and not isinstance(nodes[i], ast.Starred) else ast.Name(id="<operand>", ctx=ast.Load()), st, ctx, []))
+        finite = [it for it in its if not (isinstance(it, Opq) and it.kind == "repeat")]
+        if not finite:
+            return Opq(f"map({key(f)}, ...)#{self.fresh()}", kind="call")
+        exact = [self.exact_items(it, st) for it in finite]
+
+        def call(vals: list[Val]) -> Val:
+            if star:
+                parts = self.exact_items(vals[0], st)
+                if parts is None or not all(c == TRUE for _x, c in parts):
+                    res = Opq(f"{key(f)}(*{key(vals[0])})", self.deps(vals[0], st), kind="call")
+                    self.emit("call", "starmap", vals, None, st, ctx, e, ("unknown",), res)
+                    return res
+                vals = [x for x, _c in parts]
+            return self.call_value(f, vals, {}, st, ctx, e)
+
+        if all(x is not None for x in exact) and min(len(x) for x in exact) <= MAX_UNROLL and (len(finite) == 1 or all(c == TRUE for x in exact for _v, c in x)):
+            out = []
+            for row in range(min(len(x) for x in exact)):
+                k = 0
+                vals, cond = [], TRUE
+                for it in its:
+                    if isinstance(it, Opq) and it.kind == "repeat":
+                        vals.append(it.meta[0])
+                    else:
+                        vals.append(exact[k][row][0])
+                        cond = f_and([cond, exact[k][row][1]])
+                        k += 1
+                saved = list(st.path)
+                if cond != TRUE:
+                    st.path.append(cond)
+                out.append((call(vals), cond))
+                st.path[:] = saved
+            return self.new_coll(st, "list", out)
+        n = self.fresh()
+        ia = atom(f"iter#{n}")
+        primary = finite[0]
+        elem = self.elem_of(primary, st) if len(finite) == 1 else Opq(f"elem({key(primary)})", self.deps(primary, st), kind="elem", meta=(None,))
+        lc = LoopCtx(n, ia, tuple(st.path), primary, e, "comp", elem, filt=self.filt_of(primary, st) if len(finite) == 1 else None)
+        self.loops.append(lc)
+        self.loop_log.append(lc)
+        saved = list(st.path)
+        st.path.append(ia)
+        try:
+            vals, k = [], 0
+            for it in its:
+                if isinstance(it, Opq) and it.kind == "repeat":
+                    vals.append(it.meta[0])
+                else:
+                    vals.append(elem if k == 0 else self.elem_of(it, st))
+                    k += 1
+            r = call(vals)
+        finally:
+            st.path[:] = saved
+            self.loops.pop()
+        deps = self.deps(r, st) | frozenset().union(*[self.deps(it, st) for it in finite])
+        return self.new_coll(st, "list", [], False, deps=deps)
 
     def method_call(self, base: Val, attr: str, args, kwargs, st: State, ctx, e, alldeps) -> Val | None:
         """Builtin methods of collections and strings; None when `base` is not such a value."""
